@@ -238,7 +238,9 @@ def run_book(ctx, bi):
 
 
 DAYS = [dt.datetime(2024, 1, 14), dt.datetime(2024, 1, 15), dt.datetime(2024, 1, 16), dt.datetime(2024, 2, 1), dt.datetime(2023, 12, 31)]
-DATE_CRITS = ['G1', 'G2', '"={d}"', '">{d}"', '"<{d}"', '">={d}"', '"<={d}"', '"<>{d}"', '"{d}"', '"<>"&"{d}"', '">="&"{d}"']
+DATE_CRITS = ['G1', 'G2', '"={d}"', '">{d}"', '"<{d}"', '">={d}"', '"<={d}"', '"<>{d}"', '"{d}"', '"<>"&"{d}"', '">="&"{d}"',
+              # assembled with & from a DATE cell: the text form of a date is its serial number
+              '">="&G1', '"<"&G1', '">"&G1', '"<="&G1', '"<>"&G1', '"="&G1']
 
 
 def moment(rng):
